@@ -55,7 +55,10 @@ def check_only(sid, d, meta, prop):
         assert sh("git -C /repo status --porcelain").stdout.strip() == "", "/repo not clean"
         evf = f"{V}/evidence/{prop}.json"
         saved = open(evf).read() if os.path.exists(evf) else None
-        sh(f"git -C /repo apply {d}/patch.diff")
+        ap = sh(f"git -C /repo apply {d}/patch.diff")
+        if ap.returncode != 0:
+            print(sid, "PATCH DOES NOT APPLY to the current tree (rebase it):", ap.stderr[:200])
+            return
         try:
             c = sh(f"cd {V} && ./check {prop} --tier quick")
         finally:
